@@ -1,10 +1,12 @@
 package props
 
 import (
+	"bytes"
 	"crypto/sha256"
 	"fmt"
 	"math/rand"
 	"sync"
+	"time"
 
 	"github.com/google/go-tdx-guest/abi"
 	pb "github.com/google/go-tdx-guest/proto/tdx"
@@ -25,6 +27,7 @@ func RaceStress(seed int64, iters int) int {
 	r := rand.New(rand.NewSource(seed))
 	const G = 8
 	mismatches := 0
+	mismatches += coldStart(G)
 	for wi := 0; wi < 2; wi++ {
 		pki, err := world.NewPKI(r, world.PKIOpts{Now: baseTime, Ext: world.RandomSGXExt(r)})
 		if err != nil {
@@ -102,4 +105,60 @@ func RaceStress(seed int64, iters int) int {
 	}
 	fmt.Printf("race stress done: worlds=2 layouts=6 goroutines=%d iterations=%d mismatches=%d\n", G, iters, mismatches)
 	return mismatches
+}
+
+// coldStart makes the very first library calls of the process concurrently, with
+// no warm-up (lazily initialised package state is built here, if anywhere): each
+// goroutine verifies the Intel sample quote under the embedded root at its
+// reference time, and parses a quote of its own (the sample with a distinct
+// tail) which it keeps re-serialising while the others parse.
+func coldStart(g int) int {
+	raw, err := readRepoFile("testing/testdata/tdx_prod_quote_SPR_E4.dat")
+	if err != nil {
+		return 0
+	}
+	ref := time.Date(2023, time.July, 1, 1, 0, 0, 0, time.UTC)
+	var wg sync.WaitGroup
+	var mu sync.Mutex
+	bad := 0
+	start := make(chan struct{})
+	for i := 0; i < g; i++ {
+		i := i
+		wg.Add(1)
+		go func() {
+			defer wg.Done()
+			<-start
+			own := append(append([]byte{}, raw...), bytes.Repeat([]byte{byte(i + 1)}, 16+i)...)
+			var msgs []string
+			opts := &verify.Options{Now: &verify.TimeSet{PckCertChain: ref, TcbInfo: ref, QeIdentity: ref, PckCrl: ref, RootCaCrl: ref}}
+			if err := verify.RawTdxQuote(raw, opts); err != nil {
+				msgs = append(msgs, fmt.Sprintf("cold start: goroutine %d: the Intel sample quote is rejected under the embedded root: %v", i, err))
+			}
+			qa, err := abi.QuoteToProto(own)
+			if err != nil {
+				msgs = append(msgs, fmt.Sprintf("cold start: goroutine %d: parse: %v", i, err))
+			} else {
+				for it := 0; it < 20; it++ {
+					if _, err := abi.QuoteToProto(own); err != nil {
+						msgs = append(msgs, "cold start: re-parse: "+err.Error())
+					}
+					if ser, err := abi.QuoteToAbiBytes(qa); err != nil || !bytes.Equal(ser, own) {
+						msgs = append(msgs, fmt.Sprintf("cold start: goroutine %d: its parsed quote no longer serialises to its own bytes while other goroutines parse", i))
+						break
+					}
+				}
+			}
+			mu.Lock()
+			for _, m := range msgs {
+				bad++
+				if bad <= 5 {
+					fmt.Println("MISMATCH " + m)
+				}
+			}
+			mu.Unlock()
+		}()
+	}
+	close(start)
+	wg.Wait()
+	return bad
 }
